@@ -26,6 +26,17 @@ Definition repo_wf (R : repo) : Prop :=
   NoDup (map fst R) /\
   Forall (fun cps => NoDup (map fst (snd cps)) /\ Forall (fun pvs => NoDup (snd pvs)) (snd cps)) R.
 
+(* an ebuild atom's own restrictions are plain PackageRestrictions, never groupings (the harness
+   checks this of every atom it builds); only the ROOT of a query matters here *)
+Definition flat_atom (r : restr) : bool :=
+  match r with
+  | Node KAtom false cs => forallb (fun c => negb (has_nf c)) cs
+  | _ => true
+  end.
+
+(* the object handed to `match` has category/package attributes (it is not a bare tuple) *)
+Definition has_attrs (o : pobj) : bool := match o with PT _ _ => false | _ => true end.
+
 (* same elements, each exactly once *)
 Definition exact_answer (got want : list pobj) : Prop :=
   NoDup got /\ forall o, In o got <-> In o want.
